@@ -249,6 +249,7 @@ pub struct World {
     pub prev: Vec<Dump>,
     pub domain: Vec<String>,
     /// objects for which a create was ever accepted on some replica
+    pub level: u32,
     pub created: BTreeSet<Obj>,
     /// per replica: uuids this replica has held as recycled/tombstone since it was last refreshed
     pub dead: Vec<BTreeSet<Uuid>>,
@@ -348,6 +349,8 @@ pub enum Quiesce {
 
 pub struct WorldCfg {
     pub replicas: usize,
+    /// domain level the servers are initialised at
+    pub level: u32,
     /// replica 0 file backed (pool 4) with this arc size
     pub file_backed: Option<Option<usize>>,
 }
@@ -365,7 +368,7 @@ impl World {
                 (Some(s), Some(arc), 0) => (Some(s.path().join("r0.db")), arc),
                 _ => (None, Some(2048)),
             };
-            let qs = srv::mk_server(path.as_deref(), 4, arcsize).await;
+            let qs = srv::mk_server_at(path.as_deref(), 4, arcsize, srv::T0, cfg.level).await.expect("server init");
             // skewed clocks: up to 3 s apart, sometimes exactly equal (lamport ties)
             let skew = if rng.chance(1, 4) { Duration::ZERO } else { Duration::from_millis(rng.below(3000)) + Duration::from_nanos(rng.below(3)) };
             reps.push(Replica { qs: Some(qs), skew, path, arcsize });
@@ -375,6 +378,7 @@ impl World {
             dumps: Vec::new(),
             prev: Vec::new(),
             domain: vec!["example.com".to_string(); cfg.replicas],
+            level: cfg.level,
             created: BTreeSet::new(),
             dead: vec![BTreeSet::new(); cfg.replicas],
             resurrected: Vec::new(),
@@ -563,7 +567,7 @@ impl World {
         };
         let arc = self.reps[r].arcsize;
         self.reps[r].qs = None; // drop every handle
-        let qs = srv::mk_server_at(Some(&path), 4, arc, self.ct(r), DOMAIN_TGT_LEVEL)
+        let qs = srv::mk_server_at(Some(&path), 4, arc, self.ct(r), self.level)
             .await
             .map_err(|e| format!("restart failed: {e:?}"))?;
         self.reps[r].qs = Some(qs);
